@@ -423,6 +423,37 @@ def nested_handover():  # noqa: ANN201
                                                  "fam:nested_handover")  # fmt: skip
 
 
+def fresh_cancellation():  # noqa: ANN201
+    """the host of a scope / group (or a member) catches the cancellation and raises a NEW,
+    implicitly chained CancelledError: scopes and groups still absorb exactly their own"""
+    for cfg in CFGS:
+        for kind in ("scope", "group", "nested-group"):
+            for depth in (1, 2):
+                for at in (1, 2, 3):
+                    for place in ("before", "after"):
+                        blk: list = [["forever"]]
+                        for _ in range(depth):
+                            blk = [["catch_then", blk, [["cp", 1]], "fresh"]]
+
+                        sib = {"tid": 2, "how": "start_soon", "body": [["sleep", 2]]}
+                        if kind == "scope":
+                            root = [["scope", "s1", False, None, blk], ["cp", 2]]
+                            target = "s1"
+                        elif kind == "group":
+                            child = {"tid": 1, "how": "start_soon", "body": [["forever"]]}
+                            root = [["group", 1, [child], blk], ["cp", 2]]
+                            target = "g1"
+                        else:
+                            inner_child = {"tid": 3, "how": "start_soon", "body": [["forever"]]}
+                            mid = {"tid": 1, "how": "start_soon",
+                                   "body": [["group", 1, [inner_child], blk], ["cp", 2]]}  # fmt: skip
+                            root = [["group", 0, [mid, sib], [["cp", 1]]], ["cp", 1]]
+                            target = "g1"
+
+                        yield _p(cfg, root, [{"at": at, "place": place, "do": ["cancel", target]}],
+                                 "fam:fresh_cancellation")  # fmt: skip
+
+
 def shielded_checkpoint_window():  # noqa: ANN201
     """a task sits in cancel_shielded_checkpoint() while its scope, or an ancestor of it, gets
     cancelled by somebody else at every cycle around it: the yield is never interrupted, the
